@@ -268,10 +268,10 @@ class ProductionChecker:
             raise ValueError(fam)
         return z3.And(*cs)
 
-    def start(self, fam):
+    def start(self, fam, sfx=''):
         ex = self.new_exec()
         st = State()
-        me = self.cs.make_splitter(ex, st)
+        me = self.cs.make_splitter(ex, st, sfx=sfx)
         st.env['self'] = me
         st.env['stream'] = Opaque('stream')
         st.assume(self.in_family(st, me, fam))
@@ -516,7 +516,7 @@ def check_after_terminator(pc_, prop, kind):
                     s_y.objs[v.oid]['tokens'].lid == tokens0.lid
                 goals.append(('the yielded statement is built from the collected list', y_pc, z3.BoolVal(ok)))
             # second run: same token from the reset state; final states must agree
-            ex2, st2, me2 = pc_.start('RESET')
+            ex2, st2, me2 = pc_.start('RESET', sfx='_second_run')
             st2.lists[st2.objs[me2.oid]['tokens'].lid] = ()
             for c in st.pc:
                 pass
